@@ -52,6 +52,16 @@ CHECKS = {
          "Trusted: the reference model in harness/src/props/c13.rs, AddressSanitizer + debug assertions as memory-safety monitor. Stale handles are only dropped, cloned, guarded and unguarded (never borrowed); borrowing a handle after the heap was dropped is outside the domain.",
          "exhaustive bounded enumeration + property-based random generation (proptest choice tape) against a reference model, AddressSanitizer build",
          "§10 C13"),
+ "C01": ("exploration",
+         "Differential testing against the reference engine the property names: seeded random programs from the typed grammar generator progen (clean profile: expressions over every operator x operand-type pair the grammar admits, control flow incl. try/catch/finally with every completion type, labelled jumps, switch, closures, hoisting, classes, destructuring, generators, Map/Set and ~150 pinned library entries with index-like argument classes NaN/-0/negative/fractional/out-of-range/undefined/missing) are run on tsrun and on node (fresh strict-mode vm context, identical text incl. the canonical printer); compared: printed completion value, console lines, error class. Productions matching the gate of an open known finding are excluded by construction and counted; ~45 genuine defects found this way were repaired (fix: commits) and are pinned as regressions. Sampled, not exhaustive.",
+         "Trusted: node v20 as the ECMAScript reference for the generated subset; the canonical printer's own dependencies (typeof, Array.isArray, hasOwnProperty.call, Object.keys, JSON.stringify(string), String(number), forEach). Only exactly specified behaviour is generated (no transcendental Math, no locale functions, consistent sort comparators, exponentiation on small integers only). If node is absent the differential part reports zero evaluations (never a violation).",
+         "property-based random program generation (proptest choice tape, shrinking) + differential testing against a reference engine (node)",
+         "§10 C01"),
+ "C14": ("exploration",
+         "Seeded random self-contained programs (one IIFE, no global writes, canonical printer inside) from progen biased to closures, generators (exhausted / abandoned / closed early), classes, Map/Set, destructuring, exceptions and uncaught errors are each run 8 times on one interpreter with collect() after every run; oracle: gc_stats().live_objects identical from the 3rd run on, call_depth()==0 and the H4 quiescence snapshot clean after every run, identical end of every run. Sampled, not exhaustive.",
+         "Trusted: GcStats.live_objects as reported by the heap after collect(); hook H4. Modules (immortal namespaces) are outside the domain. The constructs of the open finding C14-yield-in-block-leaks-scope are excluded by construction.",
+         "property-based random program generation (proptest choice tape) + invariant over a repetition history (live-object count, quiescence)",
+         "§10 C14"),
 }
 
 NOT_YET = {}
